@@ -94,8 +94,52 @@ fn thread_markers(mon: &mut Mon) {
     }
 }
 
+/// Clone::clone_from replaces a live handle IN PLACE: the allocation the destination held loses exactly one reference (its value goes away with the
+/// last one), the source's gains one, the destination then dereferences to the source's value; with an empty side it is a plain assignment.
+fn clone_from_scenarios(mon: &mut Mon) {
+    fn count<T>(p: *const T) -> usize { let a = ManuallyDrop::new(unsafe { Arc::from_raw(p) }); Arc::strong_count(&a) }
+    let _ = take_drops();
+    // CArc over CArc: different allocations, the destination being the sole handle of its own
+    let mut a = CArc::from(Tok::mk(-101));
+    let b = CArc::from(Tok::mk(-102));
+    let b2 = b.clone();
+    let pb = b.as_ref().map(|t| t as *const Tok).unwrap();
+    a.clone_from(&b);
+    let d = take_drops();
+    if d != vec![-101] { mon.fail(format!("CArc::clone_from over the sole handle of another allocation: destructors ran for {:?}, expected the replaced value [-101] exactly now", d)); }
+    if count(pb) != 3 { mon.fail(format!("CArc::clone_from: the source's allocation has strong count {} with 3 live handles", count(pb))); }
+    if a.as_ref().map(|t| t.val()) != Some(-102) { mon.fail("CArc::clone_from: the destination does not dereference to the source's value".into()); }
+    // the same allocation on both sides, an empty source, an empty destination
+    let mut a2 = b.clone();
+    a2.clone_from(&b);
+    if count(pb) != 4 { mon.fail(format!("CArc::clone_from between two handles of ONE allocation: strong count {} with 4 live handles", count(pb))); }
+    let e: CArc<Tok> = CArc::default();
+    a2.clone_from(&e);
+    if count(pb) != 3 || a2.as_ref().is_some() { mon.fail(format!("CArc::clone_from(empty): strong count {} with 3 live handles / destination not empty", count(pb))); }
+    a2.clone_from(&b);
+    if count(pb) != 4 { mon.fail(format!("CArc::clone_from onto an empty handle: strong count {} with 4 live handles", count(pb))); }
+    drop(a); drop(a2); drop(b2);
+    if count(pb) != 1 || !take_drops().is_empty() { mon.fail("CArc::clone_from: count or destructors wrong after the copies are gone".into()); }
+    drop(b);
+    if take_drops() != vec![-102] { mon.fail("CArc::clone_from: the source's value was not destroyed exactly once, with its last handle".into()); }
+    // CArcSome
+    let mut s = CArcSome::from(Tok::mk(-103));
+    let t = CArcSome::from(Tok::mk(-104));
+    let t2 = t.clone();
+    let pt = &*t as *const Tok;
+    s.clone_from(&t);
+    let d = take_drops();
+    if d != vec![-103] { mon.fail(format!("CArcSome::clone_from over the sole handle of another allocation: destructors ran for {:?}, expected [-103]", d)); }
+    if count(pt) != 3 || s.val() != -104 { mon.fail(format!("CArcSome::clone_from: strong count {} with 3 live handles, destination reads {}", count(pt), s.val())); }
+    s.clone_from(&t2);
+    if count(pt) != 3 { mon.fail(format!("CArcSome::clone_from between two handles of one allocation: strong count {} with 3 live handles", count(pt))); }
+    drop(s); drop(t2); drop(t);
+    if take_drops() != vec![-104] { mon.fail("CArcSome::clone_from: the source's value was not destroyed exactly once".into()); }
+}
+
 pub fn run(params: &[i64], ops: &Rows, mon: &mut Mon) -> Rows {
     thread_markers(mon);
+    clone_from_scenarios(mon);
     FOREIGN_ON.store(params.get(0).copied().unwrap_or(0) == 1, SeqCst);
     let r = exec(ops, None, mon);
     FOREIGN_ON.store(false, SeqCst);
